@@ -328,6 +328,15 @@ impl Ctx {
         }
     }
 
+    /// `VERIF_PARTS=a,b` restricts a run to the parts whose name contains one of the substrings
+    /// (debugging and sensitivity testing of a single part; never used by the registered commands).
+    pub fn part_enabled(&self, name: &str) -> bool {
+        match std::env::var("VERIF_PARTS") {
+            Ok(f) if !f.trim().is_empty() => f.split(',').any(|p| name.contains(p.trim())),
+            _ => true,
+        }
+    }
+
     pub fn assume(&self, text: &str) {
         self.assumptions.lock().unwrap().push(text.to_string());
     }
@@ -462,6 +471,9 @@ impl Ctx {
     where
         C: Serialize + DeserializeOwned + Debug,
     {
+        if !self.part_enabled(&format!("{part}/corpus")) {
+            return;
+        }
         let t0 = Instant::now();
         let dir = Path::new(VERIF_DIR).join("corpus").join(&self.property);
         let mut files: Vec<PathBuf> = std::fs::read_dir(&dir)
@@ -504,6 +516,9 @@ impl Ctx {
     ) where
         C: Serialize + Debug + Clone + Send,
     {
+        if !self.part_enabled(part.name) {
+            return;
+        }
         let t0 = Instant::now();
         let nshards = if part.shards == 0 { self.shards } else { part.shards };
         let abort = AtomicBool::new(false);
@@ -564,6 +579,9 @@ impl Ctx {
         S: Strategy<Value = C>,
         C: Serialize + Debug + Clone + Send,
     {
+        if !self.part_enabled(part.name) {
+            return;
+        }
         let t0 = Instant::now();
         let nshards = (if part.shards == 0 { self.shards } else { part.shards }).max(1);
         let per_shard = part.cases.div_ceil(nshards as u64).max(1);
